@@ -5,6 +5,7 @@ import (
 	"github.com/hneemann/parser2/funcGen"
 	"github.com/hneemann/parser2/value"
 	"github.com/hneemann/parser2/value/export/xmlWriter"
+	"strings"
 )
 
 type xmlListExporter struct {
@@ -89,6 +90,9 @@ func (x xmlExporter) Map(m value.Map) MapExporter {
 func isSimpleMap(m value.Map) bool {
 	isSimple := true
 	m.Iter(func(key string, e value.Value) bool {
+		if !isAttrName(key) {
+			isSimple = false
+		}
 		if _, ok := e.ToMap(); ok {
 			isSimple = false
 		}
@@ -101,6 +105,26 @@ func isSimpleMap(m value.Map) bool {
 		return true
 	})
 	return isSimple
+}
+
+// isAttrName reports whether a map key can be written as the name of an XML
+// attribute. Only plain ASCII names are accepted, and names starting with
+// "xml" are reserved by the XML specification (xmlns would even change the
+// namespace of the element). Maps with any other key are exported in the
+// <entry key="..."> form, which can carry every key.
+func isAttrName(key string) bool {
+	if key == "" || (len(key) >= 3 && strings.EqualFold(key[:3], "xml")) {
+		return false
+	}
+	for i, r := range key {
+		switch {
+		case r >= 'a' && r <= 'z', r >= 'A' && r <= 'Z', r == '_':
+		case i > 0 && (r >= '0' && r <= '9' || r == '-' || r == '.'):
+		default:
+			return false
+		}
+	}
+	return true
 }
 
 func (x xmlExporter) Custom(value.Value) (bool, error) {
